@@ -183,7 +183,7 @@ def plan(tier, seed):
     n = len(trees)
     chunk = 8
     items = [("dsl", lo, min(n, lo + chunk)) for lo in range(0, n, chunk)]
-    items += [("lat", ("d1",))] + [("lat", ("d2", i)) for i in range(A.N)] + [("lat", ("wrap1", w)) for w in A.WRAPPERS] + [("lat", ("objcore", t, r)) for t in (0, 1) for r in range(5)]
+    items += [("lat", ("d1",))] + [("lat", ("d2", i)) for i in range(A.N)] + [("lat", ("wrap1", w)) for w in A.WRAPPERS] + [("lat", ("objcore", t, r)) for t in (0, 1) for r in range(5)] + [("lat", ("objcomp",))]
     if tier == "thorough":
         items += [("lat", ("wrap2", w, i)) for w in ("properties.a", "items", "anyOf0", "additionalProperties") for i in range(A.N)]
         items += [("lat", ("d3g", "object", i)) for i in A.GROUPS["object"]]
